@@ -19,7 +19,7 @@ ASSUMPTIONS = [
     '(0 / 1 / all-ones / alternating), the other simulators start from the same values; later state is symbolic through the inputs',
     'sanctioned difference: memories compare under default_value = 0 for CompiledSimulation',
     'the C hash-map helper text (insert/lookup) is modelled as a total map in the design-level obligations and checked on its own against a '
-    'functional map by vf/chelper.py (three symbolic inserts + lookup, unwinding assertions); gcc and the mul128 inline asm are '
+    'functional map by vf/chelper.py (a lookup before and after each of three symbolic inserts, pointer-accurate value storage, unwinding assertions); gcc and the mul128 inline asm are '
     'trusted (exact 64x64->128 product); products wider than 4x4 bits are abstracted on BOTH sides over one uninterpreted '
     'mul64 with the range fact mul64(x,y) <= (2^|x|-1)(2^|y|-1)',
     'two enabled writes to one address in a cycle excluded (undefined)',
